@@ -383,6 +383,10 @@ pub fn main(opts: &Opts) {
         None
     };
     let mut rec = Recorder::new(cfg);
+    if let Some(p) = opts.get("aw") {
+        // collection periodicity set at the start of the run (the counter is shared by all scenes)
+        rec.set_aw(p.parse().unwrap());
+    }
     run_history(&mut rec, &calls, only);
     if delay_ctl.is_some() {
         crate::gates::Ctl::uninstall();
